@@ -4,7 +4,7 @@ from __future__ import annotations
 import z3
 
 from . import decl
-from .core import (BOOL, INT, NUM, STR, Heap, State, TDict, TInt, TList, TMap, TOpaque, TOpt, TRef, TRefLike,
+from .core import (key_sort, key_term, BOOL, INT, NUM, STR, Heap, State, TDict, TInt, TList, TMap, TOpaque, TOpt, TRef, TRefLike,
                    TSet, TSetV, TTuple, Unsupported, Val, coerce, fresh_name)
 
 CLASSKEY = "__class__"
@@ -84,39 +84,39 @@ def subclass_term(c1, c2):
 
 def dict_dom(heap: Heap, d: Val):
     t = d.t
-    return z3.Select(heap.get(t.dom_key(), z3.ArraySort(t.k.sort(), z3.BoolSort())), d.v)
+    return z3.Select(heap.get(t.dom_key(), z3.ArraySort(t.ksort(), z3.BoolSort())), d.v)
 
 
 def dict_vals(heap: Heap, d: Val):
     t = d.t
-    return [z3.Select(heap.get(t.val_key(i), z3.ArraySort(t.k.sort(), s)), d.v) for i, s in enumerate(t.v.sorts())]
+    return [z3.Select(heap.get(t.val_key(i), z3.ArraySort(t.ksort(), s)), d.v) for i, s in enumerate(t.v.sorts())]
 
 
 def dict_read(heap: Heap, d: Val, k: Val) -> Val:
-    return d.t.v.make([z3.Select(a, k.v) for a in dict_vals(heap, d)])
+    return d.t.v.make([z3.Select(a, key_term(k)) for a in dict_vals(heap, d)])
 
 
 def dict_has(heap: Heap, d: Val, k: Val):
-    return z3.Select(dict_dom(heap, d), k.v)
+    return z3.Select(dict_dom(heap, d), key_term(k))
 
 
 def dict_set_contents(heap: Heap, d: Val, dom, vals):
     t = d.t
-    heap.set(t.dom_key(), z3.Store(heap.get(t.dom_key(), z3.ArraySort(t.k.sort(), z3.BoolSort())), d.v, dom))
+    heap.set(t.dom_key(), z3.Store(heap.get(t.dom_key(), z3.ArraySort(t.ksort(), z3.BoolSort())), d.v, dom))
     for i, (s, a) in enumerate(zip(t.v.sorts(), vals)):
-        heap.set(t.val_key(i), z3.Store(heap.get(t.val_key(i), z3.ArraySort(t.k.sort(), s)), d.v, a))
+        heap.set(t.val_key(i), z3.Store(heap.get(t.val_key(i), z3.ArraySort(t.ksort(), s)), d.v, a))
 
 
 def dict_store(heap: Heap, d: Val, k: Val, v: Val):
     v = coerce(v, d.t.v)
-    dom = z3.Store(dict_dom(heap, d), k.v, z3.BoolVal(True))
-    vals = [z3.Store(a, k.v, term) for a, term in zip(dict_vals(heap, d), v.terms())]
+    dom = z3.Store(dict_dom(heap, d), key_term(k), z3.BoolVal(True))
+    vals = [z3.Store(a, key_term(k), term) for a, term in zip(dict_vals(heap, d), v.terms())]
     dict_set_contents(heap, d, dom, vals)
 
 
 def dict_delete(heap: Heap, d: Val, k: Val):
-    dom = z3.Store(dict_dom(heap, d), k.v, z3.BoolVal(False))
-    vals = [z3.Store(a, k.v, dflt) for a, dflt in zip(dict_vals(heap, d), d.t.v.default_terms())]
+    dom = z3.Store(dict_dom(heap, d), key_term(k), z3.BoolVal(False))
+    vals = [z3.Store(a, key_term(k), dflt) for a, dflt in zip(dict_vals(heap, d), d.t.v.default_terms())]
     dict_set_contents(heap, d, dom, vals)
 
 
@@ -130,11 +130,11 @@ def normalisation_axiom(heap: Heap, t: TDict):
     """forall r, k: not dom[r][k] => val[r][k] == default  (representation choice of the model:
     `del`/`pop` store the default; initial heaps are assumed normalised)."""
     r = z3.Int("r!n")
-    k = z3.Const("k!n", t.k.sort())
-    dom = heap.initial_get(t.dom_key(), z3.ArraySort(t.k.sort(), z3.BoolSort()))
+    k = z3.Const("k!n", t.ksort())
+    dom = heap.initial_get(t.dom_key(), z3.ArraySort(t.ksort(), z3.BoolSort()))
     out = []
     for i, (s, dflt) in enumerate(zip(t.v.sorts(), t.v.default_terms())):
-        val = heap.initial_get(t.val_key(i), z3.ArraySort(t.k.sort(), s))
+        val = heap.initial_get(t.val_key(i), z3.ArraySort(t.ksort(), s))
         out.append(z3.ForAll([r, k], z3.Implies(z3.Not(z3.Select(z3.Select(dom, r), k)),
                                                  z3.Select(z3.Select(val, r), k) == dflt)))
     return out
@@ -207,9 +207,9 @@ def havoc_target(st: State, target):
         _, c = target
         t = c.t
         if isinstance(t, TDict):
-            dom = z3.Const(fresh_name("hv_dom"), z3.ArraySort(t.k.sort(), z3.BoolSort()))
-            vals = [z3.Const(fresh_name("hv_val"), z3.ArraySort(t.k.sort(), s)) for s in t.v.sorts()]
-            k = z3.Const(fresh_name("k"), t.k.sort())
+            dom = z3.Const(fresh_name("hv_dom"), z3.ArraySort(t.ksort(), z3.BoolSort()))
+            vals = [z3.Const(fresh_name("hv_val"), z3.ArraySort(t.ksort(), s)) for s in t.v.sorts()]
+            k = z3.Const(fresh_name("k"), t.ksort())
             # keep the representation normalised
             for a, dflt in zip(vals, t.v.default_terms()):
                 st.pc.append(z3.ForAll([k], z3.Implies(z3.Not(z3.Select(dom, k)), z3.Select(a, k) == dflt)))
